@@ -61,7 +61,7 @@ def run(chk: Check, drv: Driver):
 
     graphcorr.run(chk, drv, 2000 if quick else 20000)
     prepared = []
-    for pr in kruns.enumerate_problems(chk, n_random=(60 if quick else 600), per_assignment=(5 if quick else 20)):
+    for pr in kruns.enumerate_problems(chk, n_random=(60 if quick else 300), per_assignment=(5 if quick else 12)):
         if pr.problem is None or "s" not in pr.fmts[pr.assignment.target.name][0]:
             continue
         pr.generate()
@@ -94,7 +94,7 @@ def run(chk: Check, drv: Driver):
     chk.count("directed_problems", directed_n)
     items = []
     for pr in prepared:
-        for k in range((8 if getattr(pr, "_directed", False) else 3) if quick else 12):
+        for k in range((8 if getattr(pr, "_directed", False) else 3) if quick else 8):
             sizes = problems.index_sizes(pr.assignment, rng, (0, 2, 3, 3, 4) if not getattr(pr, "_directed", False) else (2, 3, 3, 4))
             ins = {}
             for name, t in pr.tensors_of().items():
